@@ -158,6 +158,13 @@ def upsert (r : Reb) (now : Nat) (u : URL) (w : Option Nat) : Reb :=
     | none => r.servers ++ [{ url := u, orig := weight, cur := weight, rating := 0, ready := r.newReady }]
   ({ r with bal := bal, servers := servers }).reset now
 
+/-- `UpsertServer(u, opts…)` for a server without a record when `newMeter()` returns an error: the
+    balancer insert is rolled back (`_ = rb.next.RemoveServer(u)`) and the error returned; `reset()` is
+    not reached -/
+def upsertMeterFails (r : Reb) (u : URL) (w : Option Nat) : Reb :=
+  let bal := r.bal.upsert u w
+  { r with bal := (bal.remove u).getD bal }
+
 /-- `RemoveServer(u)`; `none` = error, nothing touched -/
 def remove (r : Reb) (now : Nat) (u : URL) : Option Reb :=
   match r.find u.key with
@@ -214,6 +221,9 @@ deriving Repr
 
 inductive Op where
   | upsert (u : URL) (w : Option Int)
+  /-- add / update (non-negative weight) during which the meter factory fails (`NewMeterFn` returns an
+      error): only an add through the rebalancer of a server it has no record of creates a meter -/
+  | upsertFailing (u : URL) (w : Option Nat)
   | remove (u : URL)
   /-- `NextServer()` of the balancer -/
   | next
@@ -228,6 +238,8 @@ inductive Out where
   | ok
   | errNegWeight
   | errNotFound
+  /-- the meter factory's error, returned by `UpsertServer` -/
+  | errMeter
   /-- `NextServer()` result: the value of the returned URL -/
   | next (r : Res) (u : Option URL)
   /-- request forwarded: value of `req.URL` as the downstream handler received it; is it an object
@@ -254,6 +266,11 @@ def step (s : Sys) : Op → Sys × Out
       (if s.viaRb then { s with reb := s.reb.upsert s.now u (some w) } else s.withBal (s.bal.upsert u (some w)), .ok)
     | none =>
       (if s.viaRb then { s with reb := s.reb.upsert s.now u none } else s.withBal (s.bal.upsert u none), .ok)
+  | .upsertFailing u w =>
+    if s.viaRb && (s.reb.find u.key).isNone then
+      ({ s with reb := s.reb.upsertMeterFails u w }, .errMeter)
+    else
+      (if s.viaRb then { s with reb := s.reb.upsert s.now u w } else s.withBal (s.bal.upsert u w), .ok)
   | .remove u =>
     if s.viaRb then
       match s.reb.remove s.now u with
